@@ -1,7 +1,8 @@
 (* C14 — constructor success implies Validate success implies a clean wire round trip;
    documented defects are rejected by constructor and validator alike. *)
-From Model Require Import Bytes Prim Tables Cert KAC Mapping Sig.
-From Proofs Require Import CtorProofs MappingProofs CtorRT.
+From Model Require Import Bytes Prim Tables Cert KAC Mapping Sig LS Validate.
+From Gen Require Import Tables Validators.
+From Proofs Require Import CtorProofs MappingProofs CtorRT ValidatorTie.
 Open Scope Z_scope.
 
 Theorem C14_signature : forall d t s, new_signature_from_bytes d t = Ok s ->
@@ -70,3 +71,69 @@ Proof. exact kac_unparseable_types_gap. Qed.
 Theorem C14_offline_signature_roundtrip : forall e st key sg dt o r, new_offline_signature e st key sg dt = Ok o ->
   (e < 2 ^ 32)%N -> (st < 65536)%N -> read_offline_signature (off_bytes o ++ r) dt = Ok (o, r).
 Proof. exact new_offline_roundtrip. Qed.
+
+(* ---- the same inclusions over the validators REGENERATED from the Go source on every run
+   (Gen/Validators.v): a change to a Go validator changes these definitions, and the theorems
+   are re-checked against what the code says now ---- *)
+(* the hand-written model's validators are the regenerated ones *)
+Theorem C14_model_signature_validate_is_source : forall s, g_signature_Signature_Validate (view_sig s) = sig_validate s.
+Proof. exact tie_signature_validate. Qed.
+Theorem C14_model_offline_validate_is_source : forall o,
+  g_offline_signature_OfflineSignature_ValidateStructure (view_off o) = off_validate_structure o.
+Proof. exact tie_offline_validate. Qed.
+Theorem C14_model_offline_ctor_is_source : forall e st key sg dt,
+  g_offline_signature_NewOfflineSignature (Z.of_N e) (Z.of_N st) key sg (Z.of_N dt) =
+  match new_offline_signature e st key sg dt with Ok _ => true | _ => false end.
+Proof. exact tie_new_offline. Qed.
+Theorem C14_model_els_validate_is_source : forall l, g_encrypted_leaseset_EncryptedLeaseSet_Validate (view_els l) = els_validate l.
+Proof. exact tie_els_validate. Qed.
+Print Assumptions C14_model_els_validate_is_source.
+(* OfflineSignature: constructor checks imply ValidateStructure, except for expires = 0 (D21) *)
+Theorem C14_source_offline_partial : forall e st key sg dt,
+  g_offline_signature_NewOfflineSignature e st key sg dt = true -> e <> 0 ->
+  g_offline_signature_OfflineSignature_ValidateStructure (built_offline e st key sg dt) = true.
+Proof. exact gen_offline_ctor_validates. Qed.
+Theorem C14_source_offline_zero_expires_refuted :
+  exists st key sg dt, g_offline_signature_NewOfflineSignature 0 st key sg dt = true /\
+    g_offline_signature_OfflineSignature_ValidateStructure (built_offline 0 st key sg dt) = false.
+Proof. exact gen_offline_zero_expires_gap. Qed.
+(* EncryptedLeaseSet: validateInputs (constructor) implies Validate, given a trailing signature
+   valid for its own type; each documented defect is refused by both *)
+Theorem C14_source_els_ctor_validates : forall st key e f off inner sg,
+  g_encrypted_leaseset_validateInputs st key e f off inner = true ->
+  g_signature_Signature_Validate sg = true ->
+  g_encrypted_leaseset_EncryptedLeaseSet_Validate (built_els st key e f off inner sg) = true.
+Proof. exact gen_els_ctor_validates. Qed.
+Print Assumptions C14_source_els_ctor_validates.
+Theorem C14_source_els_defects : forall st key e f off inner sg,
+  (g_memZ st m_key_certificate_SigningKeySizes_keys = false \/
+   Z.of_nat (length key) <> g_lookupZ m_key_certificate_SigningKeySizes_SigningPublicKeySize st \/
+   e = 0 \/ Z.land f 65532 <> 0 \/
+   (Z.land f 1 <> 0 /\ off = None) \/ (Z.land f 1 = 0 /\ off <> None) \/
+   (Z.of_nat (length inner) < 61)) ->
+  g_encrypted_leaseset_validateInputs st key e f off inner = false /\
+  g_encrypted_leaseset_EncryptedLeaseSet_Validate (built_els st key e f off inner sg) = false.
+Proof. exact gen_els_defects. Qed.
+(* LeaseSet2: validateLeaseSet2Inputs (constructor) implies Validate; each documented defect
+   (key count, key length not matching its type, flag / offline-signature mismatch, reserved
+   bits, lease count) is refused by both *)
+Theorem C14_source_ls2_ctor_validates : forall dsz dest e f off keys leases,
+  g_lease_set2_validateLeaseSet2Inputs dsz dest e f off keys leases = true ->
+  g_lease_set2_LeaseSet2_Validate (built_ls2 f off keys leases) = true.
+Proof. exact gen_ls2_ctor_validates. Qed.
+Print Assumptions C14_source_ls2_ctor_validates.
+Theorem C14_source_ls2_defects : forall dsz dest e f off keys leases,
+  ((length keys < 1)%nat \/ (length keys > 16)%nat \/
+   Exists (fun k => g_lease_set2_validateEncryptionKeyConsistency 0 k = false) keys \/
+   Z.land f 65528 <> 0 \/ (length leases > 16)%nat \/
+   (Z.land f 1 <> 0 /\ off = None) \/ (Z.land f 1 = 0 /\ off <> None)) ->
+  g_lease_set2_validateLeaseSet2Inputs dsz dest e f off keys leases = false /\
+  g_lease_set2_LeaseSet2_Validate (built_ls2 f off keys leases) = false.
+Proof. exact gen_ls2_defects. Qed.
+(* LeaseSet2.Validate on a model value, in closed form *)
+Theorem C14_source_ls2_validate_spec : forall l, Forall (fun k => (ek_type k < 65536)%N) (l2_keys l) ->
+  ls2_validate l =
+  (1 <=? Z.of_nat (length (l2_keys l))) && (Z.of_nat (length (l2_keys l)) <=? 16) && forallb enckey_valid (l2_keys l) &&
+  Bool.eqb (has_offline (l2_flags l)) (match l2_offline l with Some _ => true | None => false end) &&
+  (Z.land (Z.of_N (l2_flags l)) 65528 =? 0) && (Z.of_nat (length (l2_leases l)) <=? 16).
+Proof. exact ls2_validate_spec. Qed.
